@@ -40,6 +40,19 @@ CLAIMS = {
               "symbolic matrix fresh unknowns with A X = I; action values at absorbing states are not constrained (the statement "
               "fixes only their state value); floats as reals"),
         ref='DESIGN.md section 4 C02'),
+    'C03': dict(
+        text=("LAOStar.plan_on (explicit graph expansion, ancestor revision, inner policy iteration, solution graph, policy "
+              "construction) is executed end to end with a SYMBOLIC heuristic constrained only by admissibility (h >= V*, V* fresh "
+              "unknowns pinned by the Bellman optimality equations, h <= V*+3) and symbolic ordering keys for every rng.random() "
+              "draw, i.e. every admissible heuristic and every ordering any seed can produce. On every path z3 proves: convergence "
+              "is reported within S+3 expansions, initial value = optimal value of the initial distribution, every explored value "
+              ">= V*, the returned policy is defined on every state it reaches from the initial support with available actions "
+              "only, and its exactly evaluated return (fresh linear system) is optimal."),
+        note=("5 skeletons (2-5 states; absorbing initial mass, two start states, discounted, stochastic branching, a costly chain "
+              "with values below -23) x 2 reward menus (rewards concrete: with symbolic rewards AND heuristic every comparison "
+              "forks) x randomize_action_order/randomize_nextstate_order in {on,off}; np.around(.,10) is the identity in the "
+              "facade"),
+        ref='DESIGN.md section 4 C03'),
     'C04': dict(
         text=("LRTDP.plan_on is executed with symbolic rewards, a symbolic ADMISSIBLE heuristic (constrained only by h >= V*, V* being "
               "fresh unknowns pinned by the Bellman optimality equations), a symbolic error margin and a nondeterministic trial "
